@@ -50,6 +50,7 @@ type FuncContract struct {
 	ModHeap  bool // "modifies heap": every program-visible location, but only the listed ghost state
 	HasMod   bool
 	Wrapping bool
+	Partial  bool // partial contract: only the stated assertions, postconditions and invariants are checked (no safety obligations, no callee preconditions); labelled as such in the evidence
 	Pure     bool // result is a function of the arguments (and heap)
 	Decr     Expr
 	LoopInv  map[int][]Clause
@@ -149,7 +150,7 @@ type MonitorInv struct {
 	E     Expr
 }
 
-var clauseKw = map[string]bool{"ghostreset": true, "ghostlocal": true, "ghostresult": true, "ghostdef": true, "assumes": true, "hint": true, "ghostset": true, "preserves": true, "calls": true, "requires": true, "ensures": true, "modifies": true, "assigns": true,
+var clauseKw = map[string]bool{"partial": true, "ghostreset": true, "ghostlocal": true, "ghostresult": true, "ghostdef": true, "assumes": true, "hint": true, "ghostset": true, "preserves": true, "calls": true, "requires": true, "ensures": true, "modifies": true, "assigns": true,
 	"decreases": true, "wrapping": true, "loop": true, "at": true, "pure": true, "opaque": true,
 	"use": true, "by": true}
 var itemKw = map[string]bool{"spec": true, "lemma": true, "func": true, "interface": true, "trusted": true,
@@ -696,6 +697,11 @@ func parseContractFile(path, pkgPath string, requirePrefix bool) (*ContractFile,
 				return nil, fail("wrapping outside func")
 			}
 			curF.Wrapping = true
+		case "partial":
+			if curF == nil {
+				return nil, fail("partial outside func")
+			}
+			curF.Partial = true
 		case "pure":
 			if curF != nil {
 				curF.Pure = true
